@@ -104,6 +104,10 @@ func main() {
 		if rng.Chance(1, 6) {
 			q = gen.FieldQuery(rng)
 		}
+		if rng.Chance(1, 12) {
+			// patterns mixing escaped and real wildcards, both-open ranges, empty strings
+			q = gen.Pick(rng, []string{`a:b\*c*`, `a:x\?y?z`, `a:[* TO *]`, `f:"" AND g:h*`, `a:b\*c* OR d:/r\/e/`, `n:{* TO "*"}`})
+		}
 		// different goroutines must be able to parse with DIFFERENT default fields at the same time
 		df := ""
 		if rng.Chance(1, 2) {
@@ -211,9 +215,19 @@ func handBuilt() []*expr.Expression {
 		expr.Rang(col("a"), 1, 10, true), expr.Rang(col("a"), "*", "z", false),
 		expr.Eq(col("a"), "b*"), expr.Eq(col("a"), "/re/"), expr.Eq(col("a"), 5), expr.AND(expr.Eq(col("a"), "x"), expr.NOT(expr.Eq(col("b"), 1.5))),
 		expr.IN(col("a"), expr.LIST([]*expr.Expression{expr.Lit("x"), expr.Lit(2)})),
+		expr.LIKE(col("a"), "abc"), expr.LIKE(col("a"), expr.Lit("plain")), expr.Eq(col("a"), expr.Lit("x*")), jsonExpr(`{"left":"a","operator":"LIKE","right":"abc"}`),
+		jsonExpr(`{"left":"a","operator":"AND","right":{"left":"b","operator":"LIKE","right":"plain"}}`),
 		expr.BOOST(expr.Eq(col("a"), "b"), 2.5), expr.FUZZY(expr.Eq(col("a"), "b"), 2), expr.MUST(expr.Lit("x")), expr.MUSTNOT(expr.Lit("y")),
 		{Left: "raw", Op: expr.Literal}, {Left: col("a"), Op: expr.Equals, Right: "rawright"},
 	}
+}
+
+func jsonExpr(doc string) *expr.Expression {
+	e := &expr.Expression{}
+	if err := json.Unmarshal([]byte(doc), e); err != nil {
+		return expr.Lit("undecodable")
+	}
+	return e
 }
 
 func fail(out string, v map[string]any) {
